@@ -51,11 +51,24 @@ def run(args):
         extra.append(("text%d" % i, "fn main() { let s = %s; println(s.len(), s == %s, s.to_upper(), s.to_lower(), s.contains(\"e\"), s.split(\"e\"), s.replace(\"e\", \"E\"), "
                       "s.repeat(2), s.starts_with(\"e\"), s.compare_lev(\"e\")); for c in s { print(c.len(), \" \"); } println(\"\"); let l = [s, %s]; l.sort(); println(l, l.join(\"|\"), [s].to_json()); "
                       "println(s[0], s.substring(1)); let o = new { ? }; o.set(s, 1); println(o.keys(), o.get(s), o.to_json()); }\n" % (t, texts[(i + 1) % len(texts)], texts[(i + 2) % len(texts)]), "free-text"))
+    # text put together at run time: what stands at a junction may combine (letter + accent, Hangul jamo, two accents which
+    # have to be reordered): the parts, the way of joining them and what is asked of the result
+    parts = [('"e"', '"\u0301"'), ('"\u1100"', '"\u1161"'), ('"a\u0323"', '"\u0302"'), ('"\u0041"', '"\u030a"'), ('"o"', '"\u0308x"'),
+             ('"ab"', '"cd"'), ('"\u00e9"', '"\u0301"'), ('"q\u0307"', '"\u0323"')]
+    joins = ["let s = a + b;", "let s = a; s += b;", "let s = \"\"; for c in [a, b] { s += c; }", "let s = [a, b].join(\"\");", "let s = cat(a, b);",
+             "let s = a.repeat(1) + b.replace(\"zz\", \"\");", "let s = fmt(\"%s%s\", a, b);"]
+    for i, (a, b) in enumerate(parts):
+        for j, jn in enumerate(joins):
+            extra.append(("junction%d_%d" % (i, j), "fn cat(x: str, y: str) -> str { x + y }\nfn main() { let a = %s; let b = %s; %s println(s.len(), s, s == a + b, s == %s, s[0].len(), s.to_upper().len()); "
+                          "for c in s { print(c.len(), \" \"); } println(\"\"); println((s + s).len(), [s, a].contains(a + b), s.substring(1).len(), [s].to_json(), s.split(a).len()); "
+                          "let o = new { ? }; o.set(s, 1); println(o.keys()[0].len(), o.get(a + b)); }\n" % (a, b, jn, a[:-1] + b[1:]), "free-text"))
     failing = ['"zz".parse_json()', '"x".parse_int()', '"x".parse_float()', '"x".parse_bool()', 'none.unwrap()', 'none.expect("m")', '[1][5]', '"ab"[7]', '"ab".substring(9)', '"a".repeat(0 - 1)',
                '1 / 0', '1 % 0', '1.5 / 0.0', '2 ** (0 - 1)', '1 << 64', '1 << (0 - 1)', '[1].remove(4)', '[1].insert(9, 1)', '(new { ? })~>k', '"[1]".parse_json() as str', '[1..2].to_json()',
                'assert(false)', 'throw("t")', '"é".parse_int()', '9223372036854775807 + 1', '(0 - 9223372036854775807 - 1) / (0 - 1)']
     for i, e in enumerate(failing):
-        extra.append(("failing%d" % i, "fn main() { let o: ?int = none; try { let v = %s; println(\"value\", v); } catch e { println(\"caught\"); } println(\"after\"); }\n" % e.replace("none.", "o."), "failing-builtin"))
+        extra.append(("failing%d" % i, "fn main() { let o: ?int = none; try { let v%s = %s; println(\"value\"%s); } catch e { println(\"caught\"); } println(\"after\"); }\n" % (
+            ": any" if e.endswith("parse_json()") or "~>" in e else "", e.replace("none.", "o."),
+            "" if e.endswith("parse_json()") or "~>" in e or ".remove(" in e or ".insert(" in e or e.startswith("assert") else ", v"), "failing-builtin"))
     xreqs = [{"op": "run", "id": i, "a": {"modules": {"main": src}, "entry": "main", "backend": b, "timeout_ms": 8000}}
              for i, (pid, src, fam) in enumerate(extra) for b in ("vm", "tree")]
     xres = pool.map(xreqs, timeout=30)
@@ -70,6 +83,8 @@ def run(args):
                           panic=sem.panic_class((bad.get("crash") or {}).get("stderr", ""))), {"program": src, "real": str(bad)[:1200]})
             continue
         if not a["r"]["accepted"]:
+            if fam in ("free-text", "failing-builtin"):
+                raise C.Machinery("the %s program %s is not accepted: %s" % (fam, pid, [d["msg"] for d in a["r"]["diags"] if d["level"] == "Error"][:2] + a["r"]["syntax"][:1]))
             continue
         pairs += 1
         oa, ot = a["r"]["outcome"], t["r"]["outcome"]
@@ -81,4 +96,7 @@ def run(args):
     for p in rnd.sample(ok, 3):
         rep.sample({"family": p["feats"]["family"], "program": rendered[p["id"]][0][:1000],
                     "expected_status": cases[p["id"]]["status"]})
+    # float values at the edges (nan, infinities, signed zeros): HmsFloat decides every comparison and arithmetic result
+    from . import floatspec
+    floatspec.run(rep, pool, backends=("vm", "tree"))
     return rep.finish()
